@@ -205,6 +205,7 @@ local   CCode   gccFortranPCall (Foam *, int, Foam, CCodeList *);
 local	CCode	gccDef0List	(Foam); /* Return C code for init prog */
 local	CCode	gc0Protect	(Foam); 
 local	CCode 	gc0Throw	(Foam);	
+local	CCode	gc0FloatOf	(double);
 
 /*****************************************************************************
  *
@@ -3908,10 +3909,10 @@ gccVal(Foam foam)
 		cc = gccBInt(foam);
 		break;
 	  case FOAM_SFlo:
-		cc = ccoFloatOf(gcvFloatBuf, foamToSFlo(foam));
+		cc = gc0FloatOf((double) foamToSFlo(foam));
 		break;
 	  case FOAM_DFlo:
-		cc = ccoFloatOf(gcvFloatBuf, foamToDFlo(foam));
+		cc = gc0FloatOf((double) foamToDFlo(foam));
 		break;
 	  case FOAM_Arr:
 		cc = gccArr(foam);
@@ -4774,6 +4775,38 @@ gc0MainDef(String name)
 		       ccoIdOf("main"), 
 		       ccParm,
 		       ccoCompound(ccBody));
+}
+
+/*
+ * The C text of a floating point constant.  DFloatSprint writes the non-finite
+ * values as "inf" and "nan", which are not C, and drops the sign of -0.0, so
+ * these are written as constant expressions instead.  With IEEE arithmetic
+ * (0.0/0.0) is the NaN with the sign bit set (what the division gives when it
+ * is executed), hence the negation for the other one.
+ */
+local CCode
+gc0FloatOf(double d)
+{
+	double	one = 1.0, mone = -1.0;
+	Bool	neg = false;
+	int	i;
+
+	/* sign bit of d, also for zeros and NaNs */
+	for (i = 0; i < sizeof(double); i++) {
+		UByte	mask = ((UByte *) &one)[i] ^ ((UByte *) &mone)[i];
+		if (mask) neg = (((UByte *) &d)[i] & mask) != 0;
+	}
+
+	if (d != d)
+		return ccoFloatVal(symIntern(neg ? "(0.0/0.0)" : "(-(0.0/0.0))"));
+	if (d > DBL_MAX)
+		return ccoFloatVal(symIntern("(1.0/0.0)"));
+	if (d < -DBL_MAX)
+		return ccoFloatVal(symIntern("(-1.0/0.0)"));
+	if (d == 0.0 && neg)
+		return ccoFloatVal(symIntern("(-0.0)"));
+
+	return ccoFloatOf(gcvFloatBuf, d);
 }
 
 local CCode
